@@ -36,6 +36,7 @@ def run(ctx):
     ctx.guard(rule_e, ctx, ix)
     ctx.guard(rule_f, ctx, ix)
     ctx.guard(rule_g, ctx, ix)
+    ctx.guard(rule_h, ctx, ix)
 
 
 def _table(ix, mod, name):
@@ -501,3 +502,100 @@ def rule_g(ctx, ix):
                    where=where(f, out[0][0]) if out else f.where)
     if n < 2:
         raise AnalysisError('compute_statistic with a view parameter not found on Data / BaseCartesianData')
+
+
+def rule_h(ctx, ix):
+    """Data.compute_histogram orders the limits it is given, so the counts always run from the smaller limit to the larger one.
+    The bin edges that the histogram layer state puts next to those counts must run the same way: they are built from the
+    *ordered* limits.  Small dataflow: ORD = an ordered pair (sorted(...) / (min, max)), UNORD = the two limits as the user gave
+    them, LO / HI = first / second element of an ordered pair, U = an element of an unordered one; one-argument conversions
+    (log10, datetime conversion) keep the tag."""
+    from ..flow import Flow
+    R = 'C10.h'
+    ctx.describe(R, 'the bin edges shown with the counts are built from the ordered limits', floor=1)
+    c = ix.cls('glue.viewers.histogram.state.HistogramLayerState')
+    f = c.resolve_func('update_histogram') if c is not None else None
+    if f is None:
+        raise AnalysisError('HistogramLayerState.update_histogram vanished')
+
+    def is_limit(e):
+        t = unparse(e)
+        return t.endswith('hist_x_min') or t.endswith('hist_x_max')
+
+    def classify(e, state):
+        if isinstance(e, ast.Name):
+            return {t for t in state.get(e.id, ()) if not t.startswith('<')}
+        if isinstance(e, ast.Attribute):
+            return {'LIM'} if is_limit(e) else set()
+        if isinstance(e, ast.Call):
+            nm = call_name(e)
+            if nm == 'sorted' and e.args and not any(k.arg == 'reverse' for k in e.keywords):
+                inner = classify(e.args[0], state)
+                return {'ORD'} if inner & {'UNORD', 'ORD', 'REV'} else set()
+            if nm in ('min', 'nanmin') and len(e.args) >= 2 and all('LIM' in classify(a, state) or classify(a, state) & {'U', 'LO', 'HI'} for a in e.args):
+                return {'LO'}
+            if nm in ('max', 'nanmax') and len(e.args) >= 2 and all('LIM' in classify(a, state) or classify(a, state) & {'U', 'LO', 'HI'} for a in e.args):
+                return {'HI'}
+            if len(e.args) == 1 and not e.keywords:
+                return classify(e.args[0], state) - {'LIM'} | ({'U'} if 'LIM' in classify(e.args[0], state) else set())
+            return set()
+        if isinstance(e, (ast.Tuple, ast.List)) and len(e.elts) == 2:
+            a, b = classify(e.elts[0], state), classify(e.elts[1], state)
+            if a == {'LO'} and b == {'HI'}:
+                return {'ORD'}
+            if a == {'HI'} and b == {'LO'}:
+                return {'REV'}
+            if (a | b) & {'LIM', 'U'}:
+                return {'UNORD'}
+            return set()
+        if isinstance(e, ast.Subscript) and isinstance(e.slice, ast.Constant) and isinstance(e.slice.value, int):
+            base = classify(e.value, state)
+            out = set()
+            if 'ORD' in base:
+                out.add('LO' if e.slice.value == 0 else 'HI')
+            if 'REV' in base:
+                out.add('HI' if e.slice.value == 0 else 'LO')
+            if 'UNORD' in base:
+                out.add('U')
+            return out
+        if isinstance(e, ast.IfExp):
+            return classify(e.body, state) | classify(e.orelse, state)
+        return set()
+
+    def unpack(tags, i, n):
+        if n != 2:
+            return None
+        out = set()
+        if 'ORD' in tags:
+            out.add('LO' if i == 0 else 'HI')
+        if 'REV' in tags:
+            out.add('HI' if i == 0 else 'LO')
+        if 'UNORD' in tags:
+            out.add('U')
+        return out or None
+    sinks = []
+
+    def on_stmt(st, state):
+        exprs = [st.test] if isinstance(st, (ast.If, ast.While)) else ([st.iter] if isinstance(st, ast.For) else [st])
+        for e in exprs:
+            for x in ast.walk(e):
+                if isinstance(x, ast.Call) and call_name(x) in ('linspace', 'logspace', 'geomspace') and len(x.args) >= 2:
+                    sinks.append((x, dict(state)))
+    fl = Flow(classify, on_stmt=on_stmt, unpack=unpack)
+    fl.run(f.node, {})
+    if not sinks:
+        raise AnalysisError('HistogramLayerState.update_histogram: the construction of the bin edges is not recognised')
+    seen = set()
+    for x, state in sinks:
+        if id(x) in seen:
+            continue
+        seen.add(id(x))
+        a, b = classify(x.args[0], state), classify(x.args[1], state)
+        good = a == {'LO'} and b == {'HI'}
+        bad = bool((a | b) & {'U', 'LIM'}) or (a == {'HI'} and b == {'LO'})
+        ctx.idiom(R, '%s `%s`' % (f.construct, call_name(x)), 'the edges run from the smaller to the larger limit', accepted=good, absent=bad,
+                  detail_absent='HistogramLayerState.update_histogram builds the bin edges with `%s` from the limits in the order the user '
+                                'gave them (%s / %s), while Data.compute_histogram counts from the smaller limit upwards: with hist_x_min > '
+                                'hist_x_max the edges run downwards and the counts upwards, so every count is shown in the mirrored bin'
+                                % (norm(x)[:90], sorted(a), sorted(b)),
+                  shape='%s: %s / %s' % (norm(x)[:80], sorted(a), sorted(b)), where=where(f, x))
